@@ -160,6 +160,10 @@ class AWSElastiCacheHashClient(HashClient):
 
         May useful on error handling during cluster scale down or scale up
         """
+        # Ask the endpoint first: if that fails, the client keeps working with
+        # the nodes it has (and no connection is dropped without being closed).
+        servers = self._get_nodes_list()
+
         old_clients = self.clients.copy()
         self.clients.clear()
         # Take the previous nodes out of rotation, otherwise keys keep being
@@ -173,7 +177,7 @@ class AWSElastiCacheHashClient(HashClient):
         self._failed_clients.clear()
         self._dead_clients.clear()
 
-        for server in self._get_nodes_list():
+        for server in servers:
             self.add_server(normalize_server_spec(server))
 
         for client in old_clients.values():
